@@ -89,7 +89,7 @@ func (p *parser) expression(prec int) (Node, error) {
 				return nil, err
 			}
 
-			right, err := p.projection(precedence(lexer.ObjectWildcardToken))
+			right, err := p.projection(projectionPrecedence)
 			if err != nil {
 				return nil, err
 			}
@@ -210,7 +210,7 @@ func (p *parser) expression(prec int) (Node, error) {
 				return nil, err
 			}
 
-			right, err := p.projection(newPrec)
+			right, err := p.projection(projectionPrecedence)
 			if err != nil {
 				return nil, err
 			}
@@ -232,7 +232,7 @@ func (p *parser) expression(prec int) (Node, error) {
 				return nil, err
 			}
 
-			right, err := p.projection(newPrec)
+			right, err := p.projection(projectionPrecedence)
 			if err != nil {
 				return nil, err
 			}
@@ -350,7 +350,7 @@ func (p *parser) expression(prec int) (Node, error) {
 				return nil, err
 			}
 
-			right, err := p.projection(newPrec)
+			right, err := p.projection(projectionPrecedence)
 			if err != nil {
 				return nil, err
 			}
@@ -377,7 +377,7 @@ func (p *parser) expression(prec int) (Node, error) {
 			}
 
 			if project {
-				right, err := p.projection(precedence(lexer.ObjectWildcardToken))
+				right, err := p.projection(projectionPrecedence)
 				if err != nil {
 					return nil, err
 				}
@@ -1639,7 +1639,7 @@ func (p *parser) primaryExpression() (Node, error) {
 			return nil, err
 		}
 
-		child, err := p.projection(precedence(lexer.ObjectWildcardToken))
+		child, err := p.projection(projectionPrecedence)
 		if err != nil {
 			return nil, err
 		}
@@ -1656,7 +1656,7 @@ func (p *parser) primaryExpression() (Node, error) {
 			return nil, err
 		}
 
-		child, err := p.projection(precedence(lexer.ObjectWildcardToken))
+		child, err := p.projection(projectionPrecedence)
 		if err != nil {
 			return nil, err
 		}
@@ -1684,7 +1684,7 @@ func (p *parser) primaryExpression() (Node, error) {
 			return nil, err
 		}
 
-		child, err := p.projection(precedence(lexer.FilterToken))
+		child, err := p.projection(projectionPrecedence)
 		if err != nil {
 			return nil, err
 		}
@@ -1704,7 +1704,7 @@ func (p *parser) primaryExpression() (Node, error) {
 			return nil, err
 		}
 
-		child, err := p.projection(precedence(lexer.FlattenToken))
+		child, err := p.projection(projectionPrecedence)
 		if err != nil {
 			return nil, err
 		}
@@ -1786,7 +1786,7 @@ func (p *parser) primaryExpression() (Node, error) {
 			}
 
 			if project {
-				right, err := p.projection(precedence(lexer.ObjectWildcardToken))
+				right, err := p.projection(projectionPrecedence)
 				if err != nil {
 					return nil, err
 				}
